@@ -75,6 +75,8 @@ type HeapReport struct {
 	Moved    int64  `json:"moved"`
 	Inplace  int64  `json:"inplace"`
 	Reused   int64  `json:"reused"`
+	Refused  int64  `json:"refused"`
+	RefSize  uint64 `json:"refused_size"`
 	SumNew   int64  `json:"sum_new"`
 	SumOld   int64  `json:"sum_old"`
 	MaxLive  int64  `json:"max_live_bytes"`
@@ -116,7 +118,7 @@ type ExecResult struct {
 }
 
 func wrapFlags(tc *Toolchain) string {
-	return "-Wl,--wrap=ddp_reallocate,--wrap=realloc,--wrap=free,--wrap=signal,--wrap=setlocale,--wrap=ddp_ddpmain,--wrap=ddp_end_runtime -no-pie " + tc.SimHeapO + " -lddpruntime"
+	return "-Wl,--wrap=ddp_reallocate,--wrap=realloc,--wrap=free,--wrap=signal,--wrap=__sysv_signal,--wrap=setlocale,--wrap=ddp_ddpmain,--wrap=ddp_end_runtime -no-pie " + tc.SimHeapO + " -lddpruntime"
 }
 
 // compileDDP runs kddp in dir on root and produces exe.  Returns kddp's combined output.
